@@ -142,6 +142,9 @@ func judge(c crcCase, stream, reply []byte, o cli.Outcome) harness.Result {
 	if c.Prior != "" {
 		labels = append(labels, "after-earlier-call:"+c.Prior)
 	}
+	if c.PauseMs > 0 {
+		labels = append(labels, fmt.Sprintf("pause-inside-reply:%dms", c.PauseMs))
+	}
 	if o.PriorHung {
 		return harness.Fail("an earlier call (%s) on the same client did not return", c.Prior)
 	}
